@@ -281,6 +281,10 @@ func cmdVerify(args []string) (code int) {
 		solverTime += o.TimeS
 		if o.Cover {
 			nCover++
+			if o.Result == "unsat" && strings.HasPrefix(o.Label, "return@") {
+				fmt.Fprintf(os.Stderr, "note: unreachable return: %s\n", o.Name)
+				continue
+			}
 			if o.Result == "unsat" {
 				fmt.Fprintf(os.Stderr, "ENGINE ERROR: vacuity: %s is unreachable under the assumed contracts (%s)\n", o.Name, o.Pos)
 				engineProblem = true
@@ -626,6 +630,10 @@ func (fv *FuncVC) frameObligation() {
 			body, all := fv.v.BodyEffects(fv, fv.fn)
 			fv.implementsFrame(body, all)
 		}
+		return
+	}
+	if con.FrameTrusted {
+		fv.havoced[funcKey(fv.fn)+": its assigns clause is assumed, not checked (`frame_trusted`)"] = true
 		return
 	}
 	body, all := fv.v.BodyEffects(fv, fv.fn)
